@@ -111,8 +111,8 @@ fn exercise(schema_src: &str, doc_src: &str, obs: &mut Obs) {
 // adversarial families: valid GraphQL whose only possible complaint is a limit
 // ---------------------------------------------------------------------------------------------
 
-pub const FAMILIES: [&str; 12] = [
-    "frag-flat", "frag-nested", "frag-inline", "sel-depth", "inline-depth", "directive-chain", "input-chain",
+pub const FAMILIES: [&str; 13] = [
+    "frag-deep", "frag-flat", "frag-nested", "frag-inline", "sel-depth", "inline-depth", "directive-chain", "input-chain",
     "list-type", "object-value", "list-value", "merge-depth", "var-deep",
 ];
 
@@ -125,6 +125,14 @@ pub fn family(name: &str, n: usize) -> (String, String) {
             d.push_str("{ ...F1 }");
             for i in 1..n { write!(d, "\nfragment F{i} on Query {{ a ...F{} }}", i + 1).unwrap(); }
             write!(d, " fragment F{n} on Query {{ a }}").unwrap();
+        }
+        "frag-deep" => {
+            // 99 fragments (below the chain limit of 100), each nesting its spread n levels deep:
+            // the product of two individually bounded depths
+            s.push_str("type Query { a: Int q: Query }");
+            d.push_str("{ ...F1 }");
+            for i in 1..99 { write!(d, "\nfragment F{i} on Query {}...F{}{}", "{ q ".repeat(n), i + 1, " }".repeat(n)).unwrap(); }
+            write!(d, "\nfragment F99 on Query {{ a }}").unwrap();
         }
         "frag-nested" => {
             s.push_str("type Query { a: Int q: Query }");
